@@ -17,7 +17,6 @@
 mod options;
 mod progress;
 
-use std::collections::HashSet;
 use std::io::ErrorKind;
 use std::os::unix::ffi::OsStrExt;
 use std::os::unix::fs::MetadataExt;
@@ -49,40 +48,50 @@ fn init_logging(opts: &Opts) -> Result<()> {
     Ok(())
 }
 
-// The matches of one pattern. `**` follows symbolic links, so a link
-// that leads back into the tree makes the same files match again and
-// again under longer and longer paths (practically without end once
-// there are two such links): give up at the first file that turns up
-// a second time.
-fn resolve_pattern(matches: Paths) -> Result<Vec<PathBuf>> {
-    let mut found = Vec::new();
-    let mut seen = HashSet::new();
-    for path in matches {
-        let path = path?;
-        // (The entry itself may well be a link to another match; it
-        // is the directory it was found in that counts.)
-        let dir = path.parent().filter(|p| !p.as_os_str().is_empty()).unwrap_or(Path::new("."));
-        if let (Ok(real), Some(name)) = (dir.canonicalize(), path.file_name()) {
-            if !seen.insert(real.join(name)) {
-                return Err(XcpError::InvalidSource("Pattern matches the same file twice, through a symbolic link.").into());
-            }
-        }
-        found.push(path);
+// Whether following links below `dir` leads back to a directory on
+// the way there. The glob crate follows links under `**` and keeps no
+// record of where it has been: over such a loop it tries every
+// combination of the links (up to the kernel's limit of 40), which
+// never ends in practice.
+fn has_link_loop(dir: &Path, above: &mut Vec<(u64, u64)>) -> bool {
+    let Ok(meta) = dir.metadata() else { return false };
+    if !meta.is_dir() {
+        return false;
     }
-    Ok(found)
+    let id = (meta.dev(), meta.ino());
+    if above.contains(&id) {
+        return true;
+    }
+    above.push(id);
+    let found = dir.read_dir()
+        .map(|entries| entries.flatten().any(|e| has_link_loop(&e.path(), above)))
+        .unwrap_or(false);
+    above.pop();
+    found
 }
 
 // Expand a list of file-paths or glob-patterns into a list of concrete paths.
 // FIXME: Should we convert empty glob results into errors?
 fn expand_globs(patterns: &[String]) -> Result<Vec<PathBuf>> {
+    for pattern in patterns.iter().filter(|p| p.contains("**")) {
+        // The part of the pattern that is a plain path.
+        let fixed = Path::new(pattern).components()
+            .take_while(|c| !c.as_os_str().as_bytes().iter().any(|b| b"*?[".contains(b)))
+            .collect::<PathBuf>();
+        let start = if fixed.as_os_str().is_empty() { Path::new(".") } else { fixed.as_path() };
+        if has_link_loop(start, &mut Vec::new()) {
+            return Err(XcpError::InvalidSource("A '**' pattern over symbolic links that lead back into the tree.").into());
+        }
+    }
+
     let expanded = patterns.iter()
         .map(|s| glob(s.as_str()))
         .collect::<result::Result<Vec<Paths>, _>>()?
-        .into_iter()
+        .iter_mut()
         // Force resolve each glob Paths iterator into a vector of the results...
-        .map(resolve_pattern)
+        .map::<result::Result<Vec<PathBuf>, _>, _>(Iterator::collect)
         // And lift all the results up to the top.
-        .collect::<Result<Vec<Vec<PathBuf>>>>()?;
+        .collect::<result::Result<Vec<Vec<PathBuf>>, _>>()?;
 
     // A name without any pattern characters that matches nothing is
     // a missing file, not an empty glob.
